@@ -355,12 +355,12 @@ pub fn run(s: &Session) {
     s.foreach("corpus-blocks", plain, true, check);
     let td = pool::pool(false).names(&["block"]);
     let n_td = td.len() as u64;
-    s.forall("corpus-block-mutants", s.pick(10, 100) * n_td, move || {
+    s.forall("corpus-block-mutants", s.pick(30, 300) * n_td, move || {
         let names = td.clone();
         (any::<u16>(), pool::form_ops(3)).prop_map(move |(sel, forms)| Case::Corpus { name: names[pvkit::pick_idx(sel, names.len())].clone(), forms })
     }, check);
-    s.forall("synthetic-blocks", s.pick(6_000, 150_000), synth_strategy, check);
-    s.health(s.class_count("synthetic") >= s.pick(3000, 60_000), "too few synthetic blocks decoded");
+    s.forall("synthetic-blocks", s.pick(30_000, 600_000), synth_strategy, check);
+    s.health(s.class_count("synthetic") >= s.pick(15_000, 300_000), "too few synthetic blocks decoded");
     for c in ["has-invalid-tx", "has-aux-beyond-0", "aux-keys-out-of-order", "aux-key-dangling", "invalid-duplicates", "txs:0", "txs:1", "txs:2-7",
         "block:byron-ebb", "block:byron", "block:shelley", "block:allegra", "block:mary", "block:alonzo", "block:babbage", "block:conway"] {
         s.health(s.class_count(c) > 0, &format!("class {c} never generated"));
